@@ -14,6 +14,7 @@
 //     repaired library passes unchanged) and otherwise compares in FFT order (behind the defect), counted as
 //     excluded:complex-axis-order; anything that matches neither is a violation.
 #include "kit/num.h"
+#include "kit/prelude.h"
 #include <cfloat>
 #include <dsplib.h>
 
